@@ -250,20 +250,24 @@ class Polyline:
         if not ret_new_indices:
             return new_polyline
 
-        # Compute indices of original vertices.
+        # Compute indices of original vertices. Each one moves by the number
+        # of points inserted before it, counting repeated indices.
         old_num_v = self.num_v
-        stepwise_index_offsets = np.zeros(old_num_v, dtype=np.int64)
-        stepwise_index_offsets[indices[indices < old_num_v]] = 1
+        insertion_indices = np.where(indices < 0, indices + old_num_v, indices)
+        stepwise_index_offsets = np.bincount(
+            insertion_indices, minlength=old_num_v + 1
+        )[:old_num_v]
         cumulative_index_offsets = np.cumsum(stepwise_index_offsets)
         indices_of_original_vertices = np.arange(old_num_v) + cumulative_index_offsets
 
         # Compute indices of inserted points. When more than one point is
-        # inserted, this will differ from `indices`.
-        # TODO: I think this will cause an IndexError when new points are
-        # inserted at the end. `indices + cumulative_index_offsets[indices - 1]`
-        # would work instead, but would produce an incorrect result for points
-        # inserted at the beginning.
-        indices_of_inserted_points = indices + cumulative_index_offsets[indices] - 1
+        # inserted, this will differ from `indices`. Like `np.insert()`, points
+        # inserted at the same index keep the order in which they were given.
+        insertion_order = np.argsort(insertion_indices, kind="stable")
+        indices_of_inserted_points = np.empty(k, dtype=np.int64)
+        indices_of_inserted_points[insertion_order] = insertion_indices[
+            insertion_order
+        ] + np.arange(k)
 
         return new_polyline, indices_of_original_vertices, indices_of_inserted_points
 
